@@ -86,9 +86,17 @@ def resetP : P ResetArgs := do
   let leases ← listOf (do let a ← pHex; let m ← pHex; pure (a, m))
   -- optional: the tree carries fixes/c08/zoned_client_stats.patch
   let fixZone ← (fun fs => match fs with
-    | [] => some (false, [])
+    | [] => some (true, [])
     | f :: rest => (parseBool f).map (fun b => (b, rest)) : P Bool)
-  pure { anon, refuseAny, qlogOn, statsOn, ignQ, ignS, clients, leases, fixZone }
+  -- optional: the disallowed clients of the access settings, as typed identifiers
+  let blocked ← (fun fs => match fs with
+    | [] => some ([], [])
+    | _ => (listOf cidP) fs : P (List CID))
+  let access : Access :=
+    { ips := blocked.filterMap (fun | .ip a => some a | _ => none),
+      nets := blocked.filterMap (fun | .net a b => some ⟨a, b⟩ | _ => none),
+      cids := blocked.filterMap (fun | .cid c => some c | _ => none) }
+  pure { anon, refuseAny, qlogOn, statsOn, ignQ, ignS, clients, leases, fixZone, access }
 
 /-- `name:ip:cid`, each hex. -/
 def entryOf (s : String) : Option Entry :=
@@ -103,6 +111,40 @@ def entryP : P Entry := do
   | none => failure
 
 def showEntry (e : Entry) : String := hexEncode e.name ++ ":" ++ hexEncode e.ip ++ ":" ++ hexEncode e.cid
+
+def showRule : RuleRef → String
+  | .ip a => "i." ++ hexEncode a
+  | .net a b => "n." ++ hexEncode a ++ "." ++ toString b
+  | .str s => "s." ++ hexEncode s
+
+def ruleOf (s : String) : Option RuleRef :=
+  match s.splitOn "." with
+  | ["i", a] => (hexDecode a).map .ip
+  | ["n", a, b] => do pure (.net (← hexDecode a) (← b.toNat?))
+  | ["s", x] => (hexDecode x).map .str
+  | _ => none
+
+def showInfo : Option Info → String
+  | none => "-"
+  | some i => hexEncode i.name ++ "," ++ hexEncode i.org ++ "," ++ (if i.disallowed then "1" else "0") ++ "," ++ showRule i.rule
+
+def infoOf (s : String) : Option (Option Info) :=
+  if s == "-" then some none else
+  match s.splitOn "," with
+  | [n, o, d, r] => do
+    pure (some { name := ← hexDecode n, org := ← hexDecode o, disallowed := ← parseBool d, rule := ← ruleOf r })
+  | _ => none
+
+def showReported (r : Reported) : String :=
+  showEntry r.entry ++ ":" ++ showInfo r.info ++ ":" ++ (if r.leak then "1" else "0")
+
+/-- `name:ip:cid:info:leak` -/
+def reportedOf (s : String) : Option Reported :=
+  match s.splitOn ":" with
+  | [n, i, c, inf, l] => do
+    pure { entry := { name := ← hexDecode n, ip := ← hexDecode i, cid := ← hexDecode c },
+           info := ← infoOf inf, leak := ← parseBool l }
+  | _ => none
 
 def keyCountOf (s : String) : Option (Key × Nat) :=
   match s.splitOn "=" with
@@ -154,9 +196,10 @@ def showDomains := showDomainsAs "D"
 def showOut : Out → String
   | .ok => "ok"
   | .noClient => "noclient"
+  | .clash => "clash"
   | .stores mem sc sd => counted "M" (mem.map showEntry) ++ "\t" ++ showClients sc ++ "\t" ++ showDomains sd
   | .flushed mem file => counted "M" (mem.map showEntry) ++ "\t" ++ counted "F" (file.map showEntry)
-  | .found rs => counted "R" (rs.map showEntry)
+  | .found rs => counted "R" (rs.map showReported)
   | .report sc sd => showClients sc ++ "\t" ++ showDomains sd
   | .ticked kc kd sc sd =>
     showClientsAs "KC" kc ++ "\t" ++ showDomainsAs "KD" kd ++ "\t" ++ showClients sc ++ "\t" ++ showDomains sd
@@ -180,7 +223,7 @@ def implOutP (op : Op) : P Out :=
     lit "F"; let file ← listOf entryP
     pure (.flushed mem file)
   | .search => do
-    lit "R"; let rs ← listOf entryP
+    lit "R"; let rs ← listOf (optP reportedOf)
     pure (.found rs)
   | .stats => do
     lit "C"; let sc ← listOf (optP keyCountOf)
@@ -210,7 +253,8 @@ def implOutP (op : Op) : P Out :=
     else failure
   | _ => do
     let s ← next
-    if s == "ok" then pure .ok else if s == "noclient" then pure .noClient else failure
+    if s == "ok" then pure .ok else if s == "noclient" then pure .noClient
+    else if s == "clash" then pure .clash else failure
 
 structure DState where
   /-- the model -/
@@ -241,8 +285,14 @@ def opP (name : String) : P Op :=
   | "C08.rmclient" => do
     let n ← pHex
     pure (.rmClient n)
+  | "C08.edit" => do
+    let n ← pHex; let id ← cidP
+    pure (.edit n id)
   | "C08.search" => pure .search
   | "C08.stats" => pure .stats
+  | "C08.runtime" => do
+    let a ← pHex; let h ← pHex; let o ← pHex
+    pure (.runtime a h o)
   | "C08.tick" => pure .tick
   | "C08.restart" => pure .restart
   | "C08.rotate" => pure .rotate
@@ -265,8 +315,10 @@ def classOf (c : Conf) (op : Op) : String :=
   | .statsConf .. => "statsconf"
   | .setFlags .. => "setflags"
   | .rmClient .. => "rmclient"
+  | .edit .. => "edit"
   | .search => "search"
   | .stats => "stats"
+  | .runtime .. => "runtime"
   | .tick => "tick"
   | .restart => "restart"
   | .rotate => "rotate"
@@ -274,7 +326,7 @@ def classOf (c : Conf) (op : Op) : String :=
 def confOfReset (a : ResetArgs) : Conf :=
   { anon := a.anon, refuseAny := a.refuseAny, qlogOn := a.qlogOn, statsOn := a.statsOn,
     ignQ := a.ignQ, ignS := a.ignS, clients := a.clients.map ClientObj.toPersistent, leases := a.leases,
-    fixZone := a.fixZone }
+    fixZone := a.fixZone, access := a.access }
 
 /-- The configuration after an operation the implementation reported as done. -/
 def confAfter (c : Conf) (op : Op) (implOut : Out) : Conf :=
@@ -287,6 +339,9 @@ def confAfter (c : Conf) (op : Op) (implOut : Out) : Conf :=
   | .rmClient n, .ok => match rmClient c.clients n with
     | some cs => { c with clients := cs }
     | none => c
+  | .edit n id, .ok => match editClient c.clients n id with
+    | some (some cs) => { c with clients := cs }
+    | _ => c
   | _, _ => c
 
 def stepReset (ins impl : List String) : Option (DState × String) := do
